@@ -59,7 +59,7 @@ verus! {
 //@end
 
 //@extract src/db.rs :: Database :: recover as=restore_seqno world optmap props=C11+C02+C06
-//@anchor tree.get_highest_seqno
+//@anchor write_buffer_size.allocate(size)
 //@anchor-up 1
 //@sig fn restore_seqno(db: &Database, keyspaces: &KsReadGuard) -> ()
 //@contract
